@@ -139,10 +139,17 @@ Definition static_ok22 (J : ginfo2) (Z : zone) (L : list (nat * cls2)) : bool :=
   plans_ok2 J Z L && stable_ok2 J Z L && commute_ok2 J Z L && unique_ok2 J Z L && gold_unique_ok Z L &&
   initial_ok2 Z && ops_ok2 J Z L && recv_ok2 J Z L && cb_local_ok J Z L.
 
-(** every registered cash flow has a plan on the zone reached after equation generation *)
+(** every registered cash flow has a plan on the zone reached after equation generation, made of
+    operations that are fine for the sectors they act on *)
+Definition flow_ok_on (J : ginfo2) (Z : zone) (x : flow) : bool :=
+  match flow_plan2 J Z x with
+  | Ok pl => forallb (fun s => forallb (ok2_b s) (pl s)) Z
+  | Err _ => false
+  end.
+
 Definition flows_ok2 (st : kstate) : bool :=
   match foldM (gen_step2 (kinfo st)) (gen_list2 st) (mkG2 (kzone0 st) (k_flows st) (k_ic st)) with
-  | Ok g => forallb (fun f => is_ok (flow_plan2 (kinfo st) (h_zone g) f)) (h_flows g)
+  | Ok g => forallb (flow_ok_on (kinfo st) (h_zone g)) (h_flows g)
   | Err _ => true
   end.
 
